@@ -66,6 +66,9 @@ pub fn run() {
     let mut seq: u64 = 0;
     // requests handed to the follower node and not yet replicated: its queue lives in the child process
     let mut queued: Vec<String> = vec![];
+    // every request so far ("kind a b seq", log index = position + 1) and how many of them the late joiner N has
+    let mut history: Vec<String> = vec![];
+    let mut joiner_next: usize = 0;
     for_each_line(|l| {
         if l.starts_with('#') {
             for n in nodes.iter_mut() {
@@ -74,6 +77,8 @@ pub fn run() {
             nodes = vec![];
             seq = 0;
             queued = vec![];
+            history = vec![];
+            joiner_next = 0;
             return l.to_string();
         }
         let ws: Vec<&str> = l.split_whitespace().collect();
@@ -81,16 +86,19 @@ pub fn run() {
             "L" => Some(0usize),
             "F" => Some(1),
             "R" => Some(2),
+            "N" => Some(3),
             _ => None,
         };
         match ws.as_slice() {
             ["start"] => {
-                nodes = vec![Node::new(), Node::new(), Node::new()];
+                // L, F, R receive every request; N is a node that joins late and is caught up by snapshot installation only
+                nodes = vec![Node::new(), Node::new(), Node::new(), Node::new()];
                 let r: Vec<String> = nodes.iter_mut().map(|n| n.start()).collect();
                 if r.iter().all(|x| x.starts_with("ready")) { "ok".to_string() } else { format!("dead {}", r.join("|")) }
             }
-            ["req", kind, a, b] if nodes.len() == 3 => {
+            ["req", kind, a, b] if nodes.len() == 4 => {
                 seq += 1;
+                history.push(format!("{} {} {} {}", kind, a, b, seq));
                 let rl = nodes[0].ask(&format!("L {} {} {} {}", kind, a, b, seq));
                 let q = format!("Q {} {} {} {}", kind, a, b, seq);
                 let rf = nodes[1].ask(&q);
@@ -98,22 +106,22 @@ pub fn run() {
                 let rr = nodes[2].ask(&format!("L {} {} {} {}", kind, a, b, seq));
                 format!("req L={} F={} R={}", rl, rf, rr)
             }
-            ["flush", sizes] if nodes.len() == 3 => {
+            ["flush", sizes] if nodes.len() == 4 => {
                 queued.clear();
                 format!("flush {}", nodes[1].ask(&format!("F {}", sizes)))
             }
-            ["compact", n] if nodes.len() == 3 => match idx(n) {
+            ["compact", n] if nodes.len() == 4 => match idx(n) {
                 Some(i) => {
                     let r = nodes[i].ask("compact");
                     format!("compact {}", r.split_whitespace().next().unwrap_or("err"))
                 }
                 None => "bad-op".to_string(),
             },
-            ["halfcompact", n] if nodes.len() == 3 => match idx(n) {
+            ["halfcompact", n] if nodes.len() == 4 => match idx(n) {
                 Some(i) => format!("halfcompact {}", nodes[i].ask("halfcompact")),
                 None => "bad-op".to_string(),
             },
-            ["restart", n] | ["crash", n] if nodes.len() == 3 => match idx(n) {
+            ["restart", n] | ["crash", n] if nodes.len() == 4 => match idx(n) {
                 Some(i) => {
                     if ws[0] == "crash" {
                         // the property's stop points are those at which every acknowledged write has reached the OS:
@@ -132,7 +140,7 @@ pub fn run() {
                 }
                 None => "bad-op".to_string(),
             },
-            ["files", n] if nodes.len() == 3 => match idx(n) {
+            ["files", n] if nodes.len() == 4 => match idx(n) {
                 Some(i) => {
                     let mut v: Vec<String> = std::fs::read_dir(nodes[i].dir.path().join("db"))
                         .map(|rd| rd.filter_map(|e| e.ok()).map(|e| format!("{}:{}", e.file_name().to_string_lossy(), e.metadata().map(|m| m.len()).unwrap_or(0))).collect())
@@ -147,8 +155,39 @@ pub fn run() {
                 }
                 None => "bad-op".to_string(),
             },
-            ["dump"] if nodes.len() == 3 => {
-                let d: Vec<String> = nodes.iter_mut().map(|n| n.ask("dump").replace(' ', ";")).collect();
+            // the leader's current snapshot is installed on the late joiner through its RaftStorage
+            ["install", from, to] if nodes.len() == 4 => match (idx(from), idx(to)) {
+                (Some(a), Some(b)) if a != b => {
+                    let sf = nodes[a].ask("snapfile");
+                    let w: Vec<&str> = sf.split_whitespace().collect();
+                    if w.len() == 4 && w[0] == "snapfile" && w[2].parse::<usize>().unwrap_or(0) < joiner_next {
+                        // the joiner already holds entries beyond this snapshot: it is not behind, no leader sends it
+                        "install notbehind".to_string()
+                    } else if w.len() == 4 && w[0] == "snapfile" {
+                        joiner_next = w[2].parse::<usize>().unwrap_or(0);
+                        format!("install {}", nodes[b].ask(&format!("install {} {} {}", w[1], w[2], w[3])))
+                    } else {
+                        "install nosnapshot".to_string()
+                    }
+                }
+                _ => "bad-op".to_string(),
+            },
+            // the entries after the installed snapshot reach the late joiner as replicated batches (follower path)
+            ["catchup", sizes] if nodes.len() == 4 => {
+                for (k, h) in history.iter().enumerate().skip(joiner_next) {
+                    let _ = nodes[3].ask(&format!("QI {} {}", k + 1, h));
+                }
+                joiner_next = history.len();
+                format!("catchup {}", nodes[3].ask(&format!("F {}", sizes)))
+            }
+            ["dumpn"] if nodes.len() == 4 => {
+                let a = nodes[0].ask("dump").replace(' ', ";");
+                let b = nodes[3].ask("dump").replace(' ', ";");
+                // `behind`: committed requests the joiner has received neither in a snapshot nor as entries
+                format!("dumpn behind={} L={} N={}", history.len().saturating_sub(joiner_next), a, b)
+            }
+            ["dump"] if nodes.len() == 4 => {
+                let d: Vec<String> = nodes.iter_mut().take(3).map(|n| n.ask("dump").replace(' ', ";")).collect();
                 format!("dump L={} F={} R={}", d[0], d[1], d[2])
             }
             _ => "bad-op".to_string(),
